@@ -369,6 +369,19 @@ func (c *Client) Write(b []byte) (int, error) {
 	return len(b), nil
 }
 
+// NewClient returns a recording transport for client over proto ("udp"/"tcp").
+func (r *Res) NewClient(client netip.AddrPort, proto string) *Client {
+	c := &Client{start: time.Now(), ProtoName: proto}
+	if proto == "tcp" {
+		c.Local = &net.TCPAddr{IP: net.IPv4(10, 0, 0, 53), Port: 53}
+		c.Remote = net.TCPAddrFromAddrPort(client)
+	} else {
+		c.Local = &net.UDPAddr{IP: net.IPv4(10, 0, 0, 53), Port: 53}
+		c.Remote = net.UDPAddrFromAddrPort(client)
+	}
+	return c
+}
+
 // Ask sends one decoded query as client addr over proto ("udp"/"tcp") and waits for the
 // server to finish with it. It returns every reply written (exactly one is expected).
 func (r *Res) Ask(client netip.AddrPort, proto string, q *dns.Msg) *Client {
